@@ -235,8 +235,10 @@ def explain(ctx, dis, hist, corr_name):
     specification from then on), or (2) the call is an addition whose arguments contain None (member or id) at a site
     whose validate-first / faces-after-raise findings (F3c / F3e) are still listed - the only inputs on which the
     unfixed code differs from the fixed one without breaking the predicate (a None member in a simplex cut by
-    max_order=0 is silently accepted; faces queued for cut simplices are dropped when a later element raises).
-    Both excuses disappear with the entries of known_findings/C03.json."""
+    max_order=0 is silently accepted; faces queued for cut simplices are dropped when a later element raises), or (3)
+    the call is the alias add_edges_from with a max_order while its dropped-argument finding is listed (a too large
+    simplex whose explicit id already exists is refused with a warning instead of being cut).
+    The excuses disappear with the entries of known_findings/C03.json."""
     known = {(f["site"], f["failure_class"]) for f in load_known() if f["property"] == ctx.prop}
     rest, explained = [], 0
     for d in dis:
@@ -249,6 +251,9 @@ def explain(ctx, dis, hist, corr_name):
         site = ops[-1]["op"]
         if _has_none(ops[-1]) and ((site, "edge-attr-record") in known or (site, "not-closed") in known):
             explained += 1
+            continue
+        if site == "add_edges_from" and ops[-1].get("max_order") is not None and (site, "max-order-exceeded") in known:
+            explained += 1          # (3) the alias drops max_order: a cut simplex whose explicit id exists is refused instead
             continue
         rest.append(d)
     ctx.extra["disagreements_explained_by_known_findings"] = explained
